@@ -513,11 +513,11 @@ func init() {
 			{Name: "corpus", Count: func(string) int { return len(corpus()) }, Run: func(ctx *core.Ctx, idx int) core.Result {
 				return c14Check(core.CaseRng(ctx.Seed, "C14/corpus", idx), corpus()[idx], "corpus")
 			}},
-			{Name: "soup", Count: countFn(60000, 6000000), Run: func(ctx *core.Ctx, idx int) core.Result {
+			{Name: "soup", Count: countFn(200000, 6000000), Run: func(ctx *core.Ctx, idx int) core.Result {
 				r := core.CaseRng(ctx.Seed, "C14/soup", idx)
 				return c14Check(r, genLexText(r), "soup")
 			}},
-			{Name: "mutation", Count: countFn(30000, 3000000), Run: func(ctx *core.Ctx, idx int) core.Result {
+			{Name: "mutation", Count: countFn(100000, 3000000), Run: func(ctx *core.Ctx, idx int) core.Result {
 				r := core.CaseRng(ctx.Seed, "C14/mutation", idx)
 				cs := corpus()
 				s := cs[r.Intn(len(cs))]
